@@ -19,6 +19,8 @@
                                           the packet is refused at intake but the client waits for it
    "close-waits-for-discarded-disconnect" close after a stop with DISCONNECT: the reset discards the queued DISCONNECT
                                           but the client keeps waiting for it to be written (found by TLC on this spec)
+   "abandoned-result-fails-close"         (introduced by a seeded change, not found in the pinned tree) the error a result callback returns when nobody
+                                          waits for the operation's result any more (the future was dropped) escapes connection-closed handling
    "stale-last-connack"                   (introduced by a seeded change, not found in the pinned tree) the last CONNACK is not forgotten when a
                                           new attempt starts, so an attempt that ends before its CONNACK is reported as a Disconnection
  All are repaired in /repo ("fix:" commits); the main instance runs with Defects = {} and a second
@@ -34,12 +36,14 @@ VARIABLES cur, desired, stopOpt, lastConnack,     \* MqttClientImpl
           chan,                                   \* command channel (user requests not yet taken by the loop)
           tr, inbound, hasOut,                    \* transport: state, server messages not yet read, unwritten bytes in the driver
           loop,                                   \* "run" | "exited"
+          aband,                                  \* an operation whose result nobody waits for (its future was dropped) is held by the engine and
+                                                  \* will be failed when this connection ends
           mon,                                    \* event-stream monitor (MonC12's state)
           nreq, natt, closed,                     \* bounds / bookkeeping
           hist                                    \* decisions so far (only in export mode; excluded from the view)
 
-vars == <<cur, desired, stopOpt, lastConnack, pst, disc, connectSent, pwc, chan, tr, inbound, hasOut, loop, mon, nreq, natt, closed, hist>>
-View == <<cur, desired, stopOpt, lastConnack, pst, disc, connectSent, pwc, chan, tr, inbound, hasOut, loop, mon, nreq, natt, closed>>
+vars == <<cur, desired, stopOpt, lastConnack, pst, disc, connectSent, pwc, chan, tr, inbound, hasOut, loop, aband, mon, nreq, natt, closed, hist>>
+View == <<cur, desired, stopOpt, lastConnack, pst, disc, connectSent, pwc, chan, tr, inbound, hasOut, loop, aband, mon, nreq, natt, closed>>
 H(d) == hist' = IF ExportOn THEN Append(hist, d) ELSE hist
 
 ----------------------------------------------------------------------------------------------------
@@ -65,6 +69,9 @@ ProtoClosed(p) ==
     IF p.pst = "Disconnected" THEN [p EXCEPT !.pst = "Halted", !.err = TRUE]
     ELSE IF p.disc # "none" /\ "close-fails-with-queued-disconnect" \in Defects
          THEN [p EXCEPT !.pst = "Halted", !.disc = "none", !.pwc = FALSE, !.err = TRUE]
+    \* the operations the disconnection fails are completed with an error; what their result callbacks return is of no consequence
+    ELSE IF aband /\ "abandoned-result-fails-close" \in Defects
+         THEN [p EXCEPT !.pst = "Disconnected", !.disc = "none", !.pwc = FALSE, !.err = TRUE]
     ELSE [p EXCEPT !.pst = "Disconnected", !.disc = "none", !.pwc = FALSE]
 
 ProtoUserDisconnect(p) == IF p.pst = "Connected" THEN [p EXCEPT !.disc = "queued"] ELSE p
@@ -147,6 +154,18 @@ UserRequest(r) ==          \* r in {"Start", "Stop", "StopDisc", "Close"}
     /\ mon' = IF loop = "run" THEN MonAll(mon, <<CASE r = "Start" -> "UserStart" [] r = "Stop" -> "UserStop" [] r = "StopDisc" -> "UserStopDisc" [] OTHER -> "UserClose">>) ELSE mon
     /\ UNCHANGED <<cur, desired, stopOpt, lastConnack, pst, disc, connectSent, pwc, tr, inbound, hasOut, loop, natt>>
     /\ H([a |-> r])
+
+\* the application submits an operation the disconnection will fail (a QoS 0 publish under the default offline policy, anything under
+\* PreserveNothing) and drops the handle to its result: nothing about the client's lifecycle may depend on it
+SubmitAbandoned ==
+    /\ loop = "run" /\ cur = "Connected" /\ pst = "Connected" /\ ~aband /\ ~closed
+    /\ aband' = TRUE
+    /\ UNCHANGED <<cur, desired, stopOpt, lastConnack, pst, disc, connectSent, pwc, chan, tr, inbound, hasOut, loop, mon, nreq, natt, closed>>
+    /\ H([a |-> "Abandon"])
+
+\* every other step: the abandoned operation is gone once the client has left the connection
+AbandStep == aband' = (aband /\ cur' = "Connected" /\ loop' = "run")
+L(A) == A /\ AbandStep
 
 ----------------------------------------------------------------------------------------------------
 \* loop iterations
@@ -263,21 +282,22 @@ PeerCloses ==
 Init == /\ cur = "Stopped" /\ desired = "Stopped" /\ stopOpt = "none" /\ lastConnack = "none"
         /\ pst = "Disconnected" /\ disc = "none" /\ connectSent = "no" /\ pwc = FALSE
         /\ chan = <<>> /\ tr = "none" /\ inbound = <<>> /\ hasOut = FALSE /\ loop = "run"
-        /\ mon = MonInit /\ nreq = 0 /\ natt = 0 /\ closed = FALSE /\ hist = <<>>
+        /\ aband = FALSE /\ mon = MonInit /\ nreq = 0 /\ natt = 0 /\ closed = FALSE /\ hist = <<>>
 
 LoopStep == TakeOp \/ ConnectOutcome(TRUE) \/ ConnectOutcome(FALSE) \/ ReconnectTimer \/ ReadData \/ ReadFailure("eof") \/ ReadFailure("error")
             \/ ServiceIteration \/ ServiceTimeout \/ WriteAll \/ WriteFailure
 
-Next == \/ \E r \in {"Start", "Stop", "StopDisc", "Close"} : UserRequest(r)
-        \/ LoopStep
-        \/ \E m \in {"connack_ok", "connack_fail", "garbage"} : ServerSends(m)
-        \/ PeerCloses
+Next == \/ L(\E r \in {"Start", "Stop", "StopDisc", "Close"} : UserRequest(r))
+        \/ L(LoopStep)
+        \/ L(\E m \in {"connack_ok", "connack_fail", "garbage"} : ServerSends(m))
+        \/ L(PeerCloses)
+        \/ SubmitAbandoned
 
 \* fairness: the loop keeps iterating, and a transport with nothing left to say eventually reacts
 \* (the connect attempt resolves, pending bytes are taken or refused, a read returns)
 Spec == Init /\ [][Next]_vars
-        /\ WF_vars(TakeOp) /\ WF_vars(ConnectOutcome(TRUE) \/ ConnectOutcome(FALSE)) /\ WF_vars(ServiceIteration)
-        /\ WF_vars(WriteAll \/ WriteFailure) /\ WF_vars(ReadData) /\ WF_vars(ReadFailure("eof")) /\ WF_vars(ReconnectTimer)
+        /\ WF_vars(L(TakeOp)) /\ WF_vars(L(ConnectOutcome(TRUE) \/ ConnectOutcome(FALSE))) /\ WF_vars(L(ServiceIteration))
+        /\ WF_vars(L(WriteAll \/ WriteFailure)) /\ WF_vars(L(ReadData)) /\ WF_vars(L(ReadFailure("eof"))) /\ WF_vars(L(ReconnectTimer))
 
 ----------------------------------------------------------------------------------------------------
 \* properties (C12)
